@@ -1,10 +1,17 @@
-(* Properties_C06.v — statements are added as the proofs land (see DESIGN.md). *)
+(* Properties_C06.v — C06: decoding untrusted bytes never panics, hangs or
+   allocates without bound.  Statements only; proofs in CborDecProof.v,
+   JsonDecProof.v (totality) and BoundsProof.v (the bounds).
+   "Never panics": the decoder models have an explicit panic outcome for every
+   partial Go operation, and totality says the run ends in DOk or DFail, never
+   in DPanicked or out of fuel; the unmarshaller model has no panic outcome at
+   all (every partial reflect operation is an explicit UErr). *)
 From Coq Require Import List ZArith.
-Require Import Tok CborDec CborDecProof JsonDec JsonDecProof.
+Require Import Tok CborDec CborDecProof JsonDec JsonDecProof GoVal Marshal Unmarshal ObjProof BoundsProof.
 Import ListNotations.
 Open Scope Z_scope.
 
-(* the decoders always return a value or an error: no panic, no running out of steps *)
+(* the decoders always return a value or an error; their step budget is 2*len+2 / len+2 (the fuel of dec_run /
+   jdec_run, never exhausted): steps are linear in the input *)
 Theorem C06_cbor_decoder_total : forall c bs,
   (exists toks rest a, dec_run c bs = DOk toks rest a) \/ (exists e toks a, dec_run c bs = DFail e toks a).
 Proof. exact dec_total. Qed.
@@ -12,3 +19,69 @@ Theorem C06_json_decoder_total : forall bs,
   (exists toks rest, jdec_run bs = JDOk toks rest) \/ (exists e toks, jdec_run bs = JDFail e toks).
 Proof. exact jdec_total. Qed.
 Print Assumptions C06_json_decoder_total.
+
+(* tokens and payload produced are linear in the bytes consumed (no amplification) *)
+Theorem C06_cbor_tokens_linear : forall coerce bs,
+  match dec_run coerce bs with
+  | DOk toks rest a => (length toks <= 2 * (length bs - length rest))%nat
+  | DFail e toks a => (length toks <= 2 * length bs)%nat
+  | _ => True
+  end.
+Proof. exact dec_tokens_linear. Qed.
+Theorem C06_cbor_payload_linear : forall coerce bs,
+  match dec_run coerce bs with
+  | DOk toks rest a => (sum_size toks <= 2 * (length bs - length rest))%nat
+  | DFail e toks a => (sum_size toks <= 2 * length bs)%nat
+  | _ => True
+  end.
+Proof. exact dec_payload_linear. Qed.
+Theorem C06_json_tokens_linear : forall bs,
+  match jdec_run bs with
+  | JDOk toks rest => (length toks <= length bs - length rest)%nat
+  | JDFail e toks => (length toks <= length bs)%nat
+  | _ => True
+  end.
+Proof. exact jdec_tokens_linear. Qed.
+Theorem C06_json_payload_linear : forall bs,     (* factor 3: an invalid byte becomes U+FFFD *)
+  match jdec_run bs with
+  | JDOk toks rest => (sum_size toks <= 3 * (length bs - length rest))%nat
+  | JDFail e toks => (sum_size toks <= 3 * length bs)%nat
+  | _ => True
+  end.
+Proof. exact jdec_payload_linear. Qed.
+
+(* allocation requested by the CBOR decoder, whatever lengths the input declares: the account of completed
+   steps is linear in the bytes consumed, and the one request a failing step may have made before it found
+   the input too short is at most the per-item cap (plus a linear term for chunked strings) *)
+Theorem C06_cbor_allocation_bounded : forall coerce bs,
+  match dec_run coerce bs with
+  | DOk toks rest a => a <= 16 * (Z.of_nat (length bs) - Z.of_nat (length rest))
+  | DFail e toks a => a <= 16 * Z.of_nat (length bs)
+  | _ => True
+  end.
+Proof. exact dec_alloc_bound. Qed.
+Theorem C06_cbor_failing_request_capped : forall mb bs, snd (dec_bytes mb bs) <= item_cap.
+Proof. exact dec_bytes_request_bound. Qed.
+Theorem C06_cbor_failing_chunked_request_capped : forall want bs,
+  snd (dec_indef_string want bs) <= item_cap + 12 * Z.of_nat (length bs) + 64.
+Proof. exact dec_indef_request_bound. Qed.
+Print Assumptions C06_cbor_allocation_bounded.
+
+(* the object unmarshaller: linearly many steps (for atlases whose token-free chains through transform
+   wires and tags end within d visits — a cyclic chain genuinely diverges, see unmarshal_total_ranked_refuted) ... *)
+Theorem C06_unmarshal_steps_linear : forall E A d, uranked A d = true ->
+  forall f t cur ts, ((3 * d + 5) + (3 * d + 6) * length ts <= f)%nat ->
+  unmarshal E A f t cur ts <> UFuel.
+Proof. exact unmarshal_total. Qed.
+(* ... and the value it builds is no larger than the tokens it consumed: slices and maps grow per received
+   element; a declared length never sizes anything (dsize counts payload bytes, slice elements and map entries;
+   storage fixed by the target TYPE — array slots, struct fields — is not input-controlled and counts 0) *)
+Theorem C06_unmarshal_value_size_linear : forall E A f t cur ts v rest,
+  unmarshal E A f t cur ts = UOk v rest ->
+  (dsize v + 1 + tweight rest <= dsize cur + tweight ts)%nat.
+Proof. exact unmarshal_size_linear. Qed.
+Print Assumptions C06_unmarshal_value_size_linear.
+
+(* kernel-evaluated: a header declaring 2^64-1 elements and nothing else allocates nothing *)
+Example C06_huge_header : dec_run false [155; 255; 255; 255; 255; 255; 255; 255; 255] = DFail EMalformed [] 0.
+Proof. vm_compute. reflexivity. Qed.
